@@ -34,6 +34,7 @@ type Program struct {
 	defFamCache map[string][]string
 	defNested   map[string]bool
 	capSorts    []Sort
+	cloMaps     []*types.Map
 }
 
 func loadProgram(repo string) (*Program, error) {
@@ -239,6 +240,39 @@ func (p *Program) captureSorts() []Sort {
 		p.capSorts = []Sort{}
 	}
 	return p.capSorts
+}
+
+// closureMapTypes: the Go map types written (MapUpdate) by some closure of the loaded packages -- the map
+// families a function value may own objects of
+func (p *Program) closureMapTypes() []*types.Map {
+	if p.cloMaps != nil {
+		return p.cloMaps
+	}
+	seen := map[string]bool{}
+	for _, k := range p.sortedFuncKeys() {
+		fn := p.Funcs[k]
+		if fn.Parent() == nil {
+			continue
+		}
+		for _, b := range fn.Blocks {
+			for _, in := range b.Instrs {
+				mu, ok := in.(*ssa.MapUpdate)
+				if !ok {
+					continue
+				}
+				mt, ok := mu.Map.Type().Underlying().(*types.Map)
+				if !ok || seen[mt.String()] {
+					continue
+				}
+				seen[mt.String()] = true
+				p.cloMaps = append(p.cloMaps, mt)
+			}
+		}
+	}
+	if p.cloMaps == nil {
+		p.cloMaps = []*types.Map{}
+	}
+	return p.cloMaps
 }
 
 func (p *Program) sortedFuncKeys() []string {
